@@ -618,9 +618,17 @@ def monitor_compress(mod, scratch: pathlib.Path) -> tuple[list[tuple[str, str]],
     Returns findings and the observed decisions (for the correspondence with `compressDecision`)."""
     bad, seen = [], []
     md = {"creation_time": FIXED_TIME}
-    buf = io.BytesIO()
-    mod.to_reqif(buf, metadata=md)
-    plain = buf.getvalue()
+    plain, exc = export_once(mod, md)
+    if exc is not None:
+        # the module does not export at all (e.g. it holds the input of a recorded finding): same classification as the main
+        # monitor, nothing to compare
+        try:
+            from capellambse.extensions import reqif as _rq
+
+            feats = features(describe(mod, _rq))
+        except Exception:  # noqa: BLE001
+            feats = set()
+        return monitor(mod, None, exc, feats), []
 
     def observe(label, target_kind, name, compress):
         path = scratch / name if name else None
@@ -840,6 +848,21 @@ class History:
                 pass
 
 
+def safe_apply(h: History, op: list, out: Outcome | None) -> bool:
+    """`History.apply`, with an exception of the object layer (not the exporter's business) turned into "op not applied"."""
+    try:
+        return h.apply(op)
+    except common.InfraError:
+        raise
+    except Exception as e:  # noqa: BLE001
+        if out is not None:
+            out.hit("history:op-raised")
+            out.extra.setdefault("ops_raised", [])
+            if len(out.extra["ops_raised"]) < 5:
+                out.extra["ops_raised"].append(f"{op[0]}: {type(e).__name__}: {str(e)[:80]}")
+        return False
+
+
 def gen_op(rng, h: History, risky: float) -> list:
     """next random op for the current state; `risky` = probability weight of inputs behind known findings"""
     def text(plain=True):
@@ -987,7 +1010,7 @@ def child_main() -> None:
         h = History(model, reqif)
         try:
             for op in DIRECTED[i]:
-                h.apply(op)
+                safe_apply(h, op, None)
             record(f"directed:{i}", h.mod)
         finally:
             h.discard()
@@ -1163,7 +1186,14 @@ def err_name(e: BaseException) -> str:
 
 def evaluate(env: Env, mod, case: dict, out: Outcome, pending: list) -> list[tuple[str, str]]:
     """Run one module state: implementation, monitor; queue the correspondence request."""
-    desc = describe(mod, env.reqif)
+    try:
+        desc = describe(mod, env.reqif)
+    except common.InfraError:
+        raise
+    except Exception as e:  # noqa: BLE001 - the object layer cannot even present the module: not the exporter's business
+        out.hit("describe:raised")
+        out.extra.setdefault("describe_raised", []).append(f"{type(e).__name__}: {str(e)[:80]}")
+        return []
     feats = features(desc)
     variant = case_variant(case)
     md = metadata_variant(variant)
@@ -1229,7 +1259,7 @@ def run_history(env: Env, rel: str, ops: list, out: Outcome | None, pending: lis
     found_all: list[tuple[str, str]] = []
     try:
         for i, op in enumerate(ops):
-            h.apply(op)
+            safe_apply(h, op, out)
             if every or i == len(ops) - 1:
                 o = out if out is not None else Outcome()
                 p = pending if pending is not None else []
@@ -1405,7 +1435,7 @@ def run(ctx: Ctx) -> Outcome:
             done: list = []
             try:
                 for op in ops:
-                    if h.apply(op):
+                    if safe_apply(h, op, out):
                         done.append(op)
                         evaluate(env, h.mod, {"kind": "history", "model": rel, "ops": list(done)}, out, pending)
                 out.extra["moves"] = out.extra.get("moves", 0) + h.moved
@@ -1427,7 +1457,7 @@ def run(ctx: Ctx) -> Outcome:
         h = History(env.model(rel), env.reqif)
         try:
             for op in ops:
-                h.apply(op)
+                safe_apply(h, op, out)
             evaluate(env, h.mod, {"kind": "history", "model": rel, "ops": ops}, out, pending)
         finally:
             h.discard()
@@ -1448,7 +1478,7 @@ def run(ctx: Ctx) -> Outcome:
                 if done >= n_ops:
                     break
                 op = gen_op(ctx.rng, h, risky)
-                if not h.apply(op):
+                if not safe_apply(h, op, out):
                     continue
                 ops.append(op)
                 if op[0] in _CREATES and op[0] not in ("add_req", "add_folder"):
@@ -1581,7 +1611,7 @@ def replay(ctx: Ctx, case: dict):
     elif case["kind"] == "compress-history":
         h = History(env.model(case["model"]), env.reqif)
         for op in case["ops"]:
-            h.apply(op)
+            safe_apply(h, op, None)
         found, _ = monitor_compress(h.mod, ctx.scratch)
     else:
         found = run_history(env, case["model"], case["ops"], None, None, every=False)
